@@ -31,6 +31,9 @@ reg("C15", "SPDE operators, projections and solvers are mutually consistent",
                  "mesh geometry is read through AMesh::getApexCoor / getApex and trusted",
                  "the data-noise variance used by krigingSPDE is max(nugget, 0.01 * total sill) as coded in SPDE::_init; buildInvNugget is "
                  "checked to return diag(1/s2) before krigingSPDENew is compared",
+                 "factorisations, x'Qx > 0 and direct solves are judged only when the cheap upper bound of cond(Q) (resp. cond(Q + A'A/s2)), "
+                 "||.||_1 / (P(0) min Lambda^2), is <= 1e11 (beyond, the double-precision entries no longer determine a positive definite "
+                 "matrix); products, symmetry and projections are judged always",
                  "iterative solves are judged only when the cheap upper bound of cond(Q + A'A/s2) is <= 1e9; a solve passes if the true "
                  "residual meets the coded rule <r,r>/sum||b_k|| <= 4e-8 or the relative form ||r|| <= 4e-4 ||b|| (the tolerance the "
                  "solver promises is not documented)",
